@@ -9,7 +9,6 @@ import (
 	"regexp"
 	"strings"
 	"time"
-	_ "time/tzdata"
 
 	"github.com/goblimey/go-ntrip/rtcm/handler"
 	"github.com/goblimey/go-ntrip/rtcm/utils"
